@@ -267,6 +267,134 @@ def judge_sequence(rec: Recorder, entry: str, first: tuple[typing.Any, typing.An
         rec.fail(case, "follow-up-carries-foreign-headers", {"names": leaked}, f"second request carries headers {leaked!r} from the first call")
 
 
+def judge_conn_reuse(rec: Recorder, first: tuple[typing.Any, typing.Any, typing.Any, typing.Any], tag: str) -> None:
+    """HTTPConnection level: a call that is rejected (or accepted), then close() - which 'resets all stateful properties so
+    the connection can be re-used' - then a benign request on the same object: its bytes are exactly its own request."""
+    from urllib3.connection import HTTPConnection
+
+    m, u, h, b = first
+    case = {"entry": "conn-reuse", "sequence": [[m, u, header_items(h), repr(b)], ["GET", "/public/ok?n=2"]], "tag": tag}
+    net = netsim.Net(OkServer())
+    err1: BaseException | None = None
+    err2: BaseException | None = None
+    with net:
+        c = HTTPConnection("h.test", 80)
+        try:
+            try:
+                c.request(m, u, body=(materialise_body(b) if isinstance(b, tuple) and b and b[0] in ("obj", "reader") else b), headers=h)
+                c.getresponse().read()
+            except Exception as e:  # noqa: BLE001
+                err1 = e
+            mark = sum(len(st.sent) for st in net.states)
+            c.close()
+            try:
+                c.request("GET", "/public/ok?n=2", headers={"X-Second": "yes"})
+                c.getresponse().read()
+            except Exception as e:  # noqa: BLE001
+                err2 = e
+        finally:
+            c.close()
+        stream = b"".join(bytes(st.sent) for st in net.states)
+    rec.mon("conn_reuse_after_close")
+    second = stream[mark:]
+    if err2 is not None and not second:
+        rec.fail(case, "benign-follow-up-failed", {"exc": type(err2).__name__, "conn_level": True}, f"after close() the next request on the connection raised {err2!r}")
+        return
+    reqs, residue, perr = wire.parse_all_requests(second)
+    if perr is not None or len(reqs) != 1 or residue:
+        rec.fail(case, "follow-up-not-exactly-one-request", {"parsed": len(reqs), "error": (perr or "")[:60], "conn_level": True, "first_raised": type(err1).__name__ if err1 else None}, f"after a {'rejected' if err1 else 'sent'} first call and close() the second call wrote {second[:300]!r}")
+        return
+    r = reqs[0]
+    names = [k.lower() for k, _ in r.headers]
+    if r.method != b"GET" or r.target != b"/public/ok?n=2" or wire.header_get(r.headers, b"x-second") != [b"yes"] or sorted(names) != sorted(set(names)) or set(names) - {b"host", b"accept-encoding", b"user-agent", b"x-second"}:
+        rec.fail(case, "follow-up-request-changed", {"method": r.method, "target": r.target, "conn_level": True, "first_raised": type(err1).__name__ if err1 else None}, f"second request on the wire is {r.method!r} {r.target!r} {r.headers!r}")
+
+
+DEFAULT_CALLS: list[tuple[str, str, dict[str, typing.Any]]] = [
+    ("POST", "form", {"fields": {"a": "1", "b": "two"}, "encode_multipart": False}),
+    ("GET", "plain", {}),
+    ("POST", "multipart", {"fields": {"f": ("n.txt", b"file-data"), "a": "1"}}),
+    ("POST", "json", {"json": {"k": 1}}),
+    ("POST", "multipart", {"fields": {"g": "second upload"}}),
+    ("GET", "plain", {}),
+    ("POST", "raw", {"body": b"raw-body"}),
+    ("GET", "query", {"fields": {"q": "1"}}),
+]
+
+
+def judge_defaults(rec: Recorder, entry: str, container: str, where: str, rot: int) -> None:
+    """Several calls on ONE pool / manager whose default headers (or: one headers object handed to every call) live in a
+    dict or an HTTPHeaderDict.  The calls differ in how the body is given (fields=, json=, body=, nothing): every request
+    on the wire carries the caller's header lines, the automatic ones, and a Content-Type only when *that* call's body
+    needs one - and a multipart Content-Type names the boundary that delimits the body that follows it."""
+    import urllib3
+    from urllib3._collections import HTTPHeaderDict
+
+    base = [("X-Api", "k1"), ("Accept-Language", "en")]
+    hdrs: typing.Any = dict(base) if container == "dict" else HTTPHeaderDict(base)
+    calls = DEFAULT_CALLS[rot:] + DEFAULT_CALLS[:rot]
+    case = {"entry": entry, "tag": "defaults", "container": container, "where": where, "calls": [c[1] for c in calls]}
+    net = netsim.Net(OkServer())
+    marks: list[int] = []
+    errs: list[BaseException | None] = []
+    with net:
+        kw = {"headers": hdrs} if where == "defaults" else {}
+        if entry == "pool":
+            client: typing.Any = urllib3.HTTPConnectionPool("h.test", 80, retries=False, maxsize=1, **kw)
+        elif entry == "manager":
+            client = urllib3.PoolManager(retries=False, maxsize=1, **kw)
+        else:
+            client = urllib3.ProxyManager("http://proxy.test:3128", retries=False, maxsize=1, **kw)
+        try:
+            for i, (method, kind, extra) in enumerate(calls):
+                url = f"/d/{i}" if entry == "pool" else f"http://h.test/d/{i}"
+                try:
+                    client.request(method, url, retries=False, redirect=False, **extra, **({"headers": hdrs} if where == "per-request" else {}))
+                    errs.append(None)
+                except Exception as e:  # noqa: BLE001
+                    errs.append(e)
+                marks.append(sum(len(st.sent) for st in net.states))
+        finally:
+            client.close() if entry == "pool" else client.clear()
+    rec.mon("defaults_sequence")
+    stream = b"".join(bytes(st.sent) for st in net.states)
+    if len([st for st in net.states if st.sent]) > 1:
+        rec.note_inconclusive("defaults sequence used several sockets")
+        return
+    lo = 0
+    for i, ((method, kind, extra), hi, err) in enumerate(zip(calls, marks, errs)):
+        raw, lo = stream[lo:hi], hi
+        if err is not None:
+            rec.fail(case, "benign-follow-up-failed", {"step": i, "kind": kind, "exc": type(err).__name__}, f"call {i} ({kind}) raised {err!r}")
+            return
+        reqs, residue, perr = wire.parse_all_requests(raw)
+        if perr is not None or len(reqs) != 1 or residue:
+            rec.fail(case, "not-exactly-one-request", {"step": i, "kind": kind, "parsed": len(reqs), "error": (perr or "")[:60]}, f"call {i} ({kind}) wrote {raw[:200]!r}")
+            return
+        r = reqs[0]
+        names = [k.lower() for k, _ in r.headers]
+        allowed = {b"x-api", b"accept-language"} | set(AUTO) | set(FRAMING) | ({b"accept"} if entry == "proxy" else set()) | ({b"content-type"} if kind in ("form", "multipart", "json") else set())
+        extra_names = sorted(set(names) - allowed)
+        if extra_names or any(names.count(n) > 1 for n in names):
+            rec.fail(case, "unrequested-header", {"step": i, "kind": kind, "names": extra_names, "history": [c[1] for c in calls[:i]]}, f"call {i} ({kind}) after {[c[1] for c in calls[:i]]} carries {extra_names!r} / repeated names: {r.headers!r}")
+            return
+        if wire.header_get(r.headers, b"x-api") != [b"k1"] or wire.header_get(r.headers, b"accept-language") != [b"en"]:
+            rec.fail(case, "header-lines-differ", {"step": i, "kind": kind}, f"call {i}: the caller's header lines are not on the wire unchanged: {r.headers!r}")
+            return
+        ct = (wire.header_get(r.headers, b"content-type") or [b""])[0]
+        want_ct = {"form": b"application/x-www-form-urlencoded", "json": b"application/json", "multipart": b"multipart/form-data; boundary="}.get(kind)
+        if want_ct is not None and not ct.startswith(want_ct):
+            rec.fail(case, "header-lines-differ", {"step": i, "kind": kind, "content_type": ct}, f"call {i} ({kind}) announces Content-Type {ct!r}")
+            return
+        if kind == "multipart":
+            boundary = ct.split(b"boundary=", 1)[1]
+            if not r.body.startswith(b"--" + boundary + b"\r\n") or not r.body.rstrip(b"\r\n").endswith(b"--" + boundary + b"--"):
+                rec.fail(case, "head-does-not-describe-body", {"step": i, "announced": boundary[:40], "body_starts": r.body[:40]}, f"call {i}: Content-Type names boundary {boundary!r}, the body starts with {r.body[:40]!r}")
+                return
+    if header_items(hdrs) != base and sorted(header_items(hdrs)) != sorted(base):
+        rec.fail(case, "caller-headers-mutated", {"now": header_items(hdrs)}, f"the caller's header container was changed to {header_items(hdrs)!r}")
+
+
 def header_items(headers: typing.Any) -> list[tuple[typing.Any, typing.Any]]:
     if headers is None:
         return []
@@ -277,13 +405,39 @@ def header_items(headers: typing.Any) -> list[tuple[typing.Any, typing.Any]]:
     return list(headers)
 
 
+def materialise_body(marker: tuple[str, str]) -> typing.Any:
+    """Bodies that are not sendable at all (a caller bug such as body=len(data)) and file-like bodies of the duck-typed
+    kind: whatever urllib3 does with them, a failing call must not leave a half-written request behind."""
+    import io
+
+    class DuckText:
+        def __init__(self, text: str) -> None:
+            self._s = io.StringIO(text)
+
+        def read(self, n: int = -1) -> str:
+            return self._s.read(n)
+
+    class DuckBytes:
+        def __init__(self, data: bytes) -> None:
+            self._b = io.BytesIO(data)
+
+        def read(self, n: int = -1) -> bytes:
+            return self._b.read(n)
+
+    return {"int": lambda: 12345, "float": lambda: 3.5, "bool": lambda: True, "object": lambda: object(), "stringio": lambda: io.StringIO("text-\u00e9-body"), "bytesio": lambda: io.BytesIO(b"bytes-body"),
+            "duck-text": lambda: DuckText("text-\u00e9-body"), "duck-bytes": lambda: DuckBytes(b"bytes-body"), "dict": lambda: {"a": 1}, "list-of-int": lambda: [1, 2, 3]}[marker[1]]()
+
+
 def judge(rec: Recorder, entry: str, method: typing.Any, url: typing.Any, headers: typing.Any, body: typing.Any, tag: str) -> None:
     from urllib3.util import SKIP_HEADER
 
     is_buf = isinstance(body, tuple) and body and body[0] == "array-H"
-    case = {"entry": entry, "method": method, "url": url, "headers": header_items(headers), "hdr_type": type(headers).__name__, "body": (["array-H", body[1]] if is_buf else (body if isinstance(body, (bytes, str, type(None))) else ["iter"] + [x for x in body])), "tag": tag}
+    case = {"entry": entry, "method": method, "url": url, "headers": header_items(headers), "hdr_type": type(headers).__name__, "body": (["array-H", body[1]] if is_buf else (body if isinstance(body, (bytes, str, type(None))) else (list(body) if isinstance(body, tuple) else ["iter"] + [x for x in body]))), "tag": tag}
     body_arg = body
-    if is_buf:
+    if isinstance(body, tuple) and body and body[0] in ("obj", "reader"):
+        case["body"] = list(body)
+        body_arg = materialise_body(body)
+    elif is_buf:
         import array
 
         # a bytes-like body whose buffer has 2-byte items: its bytes spell a second request, so a length counted in
@@ -377,17 +531,24 @@ def judge(rec: Recorder, entry: str, method: typing.Any, url: typing.Any, header
     # headers: automatic ones per the rule, caller's ones in order and unmodified
     rec.mon("header_list")
     items = header_items(headers)
-    supplied = {to_b(k).lower() for k, _ in items}
+    # (whitespace between a field name and the colon is not allowed in HTTP/1.1, and recipients that tolerate it read
+    # 'Host\t:' as Host: such a name counts as the header it spells)
+    supplied = {to_b(k).lower().rstrip(b" \t") for k, _ in items}
     skipped = {to_b(k).lower() for k, v in items if isinstance(v, str) and v == SKIP_HEADER}
     sent = list(req.headers)
-    sent_lower = [k.lower() for k, _ in sent]
+    sent_lower = [k.lower().rstrip(b" \t") for k, _ in sent]
     for a in AUTO:
         n = sent_lower.count(a)
         want_auto = a not in supplied
-        caller_n = sum(1 for k, v in items if to_b(k).lower() == a and not (isinstance(v, str) and v == SKIP_HEADER))
+        caller_n = sum(1 for k, v in items if to_b(k).lower().rstrip(b" \t") == a and not (isinstance(v, str) and v == SKIP_HEADER))
         if want_auto and n != 1 or (not want_auto and not (1 <= n <= max(1, caller_n)) and caller_n > 0) or (not want_auto and caller_n == 0 and n != 0):
             rec.fail(case, "automatic-header-rule", {"header": a, "on_wire": n, "caller_supplied": a in supplied, "suppressed": a in skipped}, f"{a!r}: {n} line(s) on the wire, caller supplied={a in supplied} suppressed={a in skipped}")
             return
+    for fr in FRAMING:
+        if sent_lower.count(fr) > 1:
+            rec.fail(case, "automatic-header-rule", {"header": fr, "on_wire": sent_lower.count(fr), "caller_supplied": fr in supplied, "suppressed": False}, f"{fr!r}: {sent_lower.count(fr)} line(s) on the wire: {[k for k, _ in sent]!r}")
+            return
+
     def multimap(pairs: list[tuple[bytes, bytes]]) -> dict[bytes, bytes]:
         out: dict[bytes, list[bytes]] = {}
         for k, v in pairs:
@@ -409,6 +570,7 @@ def judge(rec: Recorder, entry: str, method: typing.Any, url: typing.Any, header
     for fr in FRAMING:
         if fr not in supplied:
             drop_first(fr)
+    supplied_exact = {to_b(k).lower() for k, _ in items}
     if entry == "proxy" and b"accept" not in supplied:
         drop_first(b"accept")  # documented default of a forwarding ProxyManager
     # names compare case-insensitively; repeated fields are equivalent to their comma-joined value (RFC 9110 5.3)
@@ -476,6 +638,7 @@ def run_shard(ctx: Ctx, rec: Recorder) -> None:
             {"Transfer-Encoding": "chunked"}, {"Content-Length": "3"},
             {b"Host": b"evil.test"}, {b"host": "evil.test"}, {b"User-Agent": b"ua-bytes"}, {b"Accept-Encoding": b"gzip"}, {b"accept-encoding": SKIP_HEADER}, {b"Transfer-Encoding": b"chunked"},
             {b"Content-Length": b"3"}, {b"transfer-encoding": "chunked", "X": "1"}, {b"X-B": "1", "x-b": "2"},
+            {"Host\t": "internal.test"}, {"Host ": "internal.test"}, {"Content-Length ": "0"}, {"Transfer-Encoding\t": "chunked"}, {"User-Agent ": "x"}, {"Accept-Encoding \t": "gzip"}, {"X-Trail ": "v"},
         ]:
             specials.append((entry, "POST", url0, h, b"abc"))
             if entry in ("manager", "proxy") and any(isinstance(k, bytes) for k in h) and not any(to_b(k).lower() in FRAMING for k in h):
@@ -485,6 +648,10 @@ def run_shard(ctx: Ctx, rec: Recorder) -> None:
         specials.append((entry, "GET", url0, HTTPHeaderDict([("X-Multi", "1"), ("X-Multi", "2"), ("Cookie", "a=b")]), None))
         for b in [b"plain", "text-é", [b"a", b"", b"bc"], ["s1", "s2"], b"\r\n\r\nGET /smuggled HTTP/1.1\r\nHost: evil\r\n\r\n", [b"0\r\n\r\nGET /smuggled HTTP/1.1\r\n\r\n"], b"", ""]:
             specials.append((entry, "POST", url0, {"X-Body": "1"}, b))
+        for kind in ("int", "float", "bool", "object", "dict"):  # (an iterable whose *items* are unsendable fails mid-stream by nature: not judged)
+            specials.append((entry, "POST", url0, {"X-Body": kind}, ("obj", kind)))
+        for kind in ("stringio", "bytesio", "duck-text", "duck-bytes"):
+            specials.append((entry, "PUT", url0, {"X-Body": kind}, ("reader", kind)))
     for entry, url in [("pool", "/a b"), ("pool", "/é?ü=1"), ("pool", "/%zz"), ("pool", "/a#frag"), ("pool", "/a?x=1#f?y"), ("pool", "//double"), ("pool", "/a\\b"),
                        ("manager", "http://h.test"), ("manager", "http://h.test?x=1"), ("manager", "http://h.test/a/../b"), ("manager", "http://h.test/a/./b/.."), ("manager", "http://user:pw@h.test/p"),
                        ("manager", "HTTP://H.TEST:80/p"), ("manager", "http://h.test/%2e%2e/x"), ("manager", "http://h.test/a b?c d#e f"), ("manager", "http://h.test/é"), ("manager", "http://h.test/\r\nX: y"),
@@ -495,9 +662,12 @@ def run_shard(ctx: Ctx, rec: Recorder) -> None:
             continue
         rec.case(["special", entry, m, u, header_items(h), repr(b)])
         judge(rec, entry, m, u, h, b, "special")
+        if entry == "conn":
+            rec.case(["conn-reuse", m, u, header_items(h), repr(b)])
+            judge_conn_reuse(rec, (m, u, h, iter(list(b)) if isinstance(b, list) else b), "conn-reuse")
         if entry != "conn":
             rec.case(["special-seq", entry, m, u, header_items(h), repr(b)])
-            judge_sequence(rec, entry, (m, u, h, iter(list(b)) if isinstance(b, list) else b), "special-seq")
+            judge_sequence(rec, entry, (m, u, h, iter(list(b)) if isinstance(b, list) else (materialise_body(b) if isinstance(b, tuple) and b and b[0] in ("obj", "reader") else b)), "special-seq")
     # (iii) pairs of insertions / random assembly
     n = ctx.pick(16000, 300000)
     rng = ctx.rng
@@ -559,6 +729,14 @@ def run_shard(ctx: Ctx, rec: Recorder) -> None:
                         rec.case(["empty-chunked", entry, repr(body), te, m])
                         rec.mon("empty_body_chunked")
                         judge(rec, entry, m, url0, {"Transfer-Encoding": te, "X-After": "1"}, body, "empty-chunked")
+    # (v) default / reused header containers across calls that give their body in different ways
+    if ctx.shard == 0:
+        for entry in ("pool", "manager", "proxy"):
+            for container in ("dict", "HTTPHeaderDict"):
+                for where in ("defaults", "per-request"):
+                    for rot in range(len(DEFAULT_CALLS)):
+                        rec.case(["defaults", entry, container, where, rot])
+                        judge_defaults(rec, entry, container, where, rot)
     h2_checks(ctx, rec)
 
 
